@@ -19,7 +19,7 @@ inductive E
   /-- tail function: `total_len` (uint32) converted to 64 bits -/
   | len
   | lit (c : Nat)
-  | mul (a b : E) | add (a b : E) | xor (a b : E) | or (a b : E)
+  | mul (a b : E) | add (a b : E) | xor (a b : E) | or (a b : E) | and (a b : E)
   | shl (a : E) (s : Nat) | shr (a : E) (s : Nat)
   deriving DecidableEq, Repr, Inhabited
 
@@ -50,6 +50,7 @@ def E.eval (s : S) (k0 k1 len : UInt64) : E → UInt64
   | .add a b => a.eval s k0 k1 len + b.eval s k0 k1 len
   | .xor a b => a.eval s k0 k1 len ^^^ b.eval s k0 k1 len
   | .or a b => a.eval s k0 k1 len ||| b.eval s k0 k1 len
+  | .and a b => a.eval s k0 k1 len &&& b.eval s k0 k1 len
   | .shl a n => a.eval s k0 k1 len <<< UInt64.ofNat n
   | .shr a n => a.eval s k0 k1 len >>> UInt64.ofNat n
 
